@@ -52,5 +52,14 @@ TEXT = {
                 "skipped and counted); single-precision GMRES is run with exactly n iterations",
         "technique": "runtime monitoring: differential oracle (dense solve of the reference matrix) with path-dependent error bounds and sub-expression blame",
     },
+    "C07": {
+        "level": "Held on the executions observed: generated non-singular well-conditioned operator trees x (log algorithm, trace "
+                 "algorithm) pairs, (sign, logabs) and logdet compared with numpy.linalg.slogdet of the reference matrix; every "
+                 "structural slogdet rule and every base case is reached (rule histogram in the evidence).",
+        "note": _NOTE + "; the Lanczos/Arnoldi pairs go through the matrix logarithm and are judged in double precision, for "
+                "sub-expressions whose spectrum stays away from the closed negative real axis and whose eigenvectors are well "
+                "conditioned (regime decided on the reference; skipped cases are counted)",
+        "technique": "runtime monitoring: differential oracle (reference slogdet) over generated trees x algorithm pairs with sub-expression blame",
+    },
 }
 NOT_APPLICABLE = {}
